@@ -206,6 +206,11 @@ func (k *Kernel) matchFault(op Op, path string) *Fault {
 
 func (k *Kernel) fired(f *Fault) {
 	k.res.FaultsFired[f.Kind]++
+	for i := range k.cfg.Faults {
+		if &k.cfg.Faults[i] == f {
+			k.res.FaultHits[i]++
+		}
+	}
 }
 
 func splitmix(x *uint64) uint64 {
